@@ -254,6 +254,10 @@ def _generate_unit(key):
     obligs = []
     try:
         eng, obligs, info = generate(unit)
+        if getattr(unit, "z3_timeout_ms", None):
+            for o_ in obligs:
+                if not getattr(o_, "z3_timeout_ms", None):
+                    o_.z3_timeout_ms = unit.z3_timeout_ms
         out["unit_name"] = unit.name
         out["info"] = info
     except NotGenerated as ex:
@@ -437,11 +441,17 @@ def _validate_bmc(todo):
 
 
 def _small_model(model, bound):
-    """all integer-valued constants of the model lie within [-1, 2 * bound] (strictly inside the expansion domain [-1, 2 * bound + 1])"""
+    """every integer of the model - constants, and the values and arguments of the interpretations of uninterpreted functions and arrays -
+    lies within [-1, 2 * bound] (strictly inside the expansion domain [-1, 2 * bound + 1]); names of abstract values (Obj!val!3) and of
+    auxiliary arrays (k!12, as-array) are not integers of the model"""
+    import re as _re
     for name, val in model.items():
-        v = str(val).replace("(- ", "-").replace(")", "").strip()
-        if v.lstrip("-").isdigit() and not (-1 <= int(v) <= 2 * bound):
-            return False
+        v = str(val).replace("(- ", "-")
+        v = _re.sub(r"[A-Za-z_][\w.]*!(?:val!)?\d+", " ", v)
+        v = _re.sub(r"as-array,?\s*\d+", " ", v)
+        for num in _re.findall(r"(?<![\w.!])-?\d+(?![\w.!])", v):
+            if not (-1 <= int(num) <= 2 * bound):
+                return False
     return True
 
 
